@@ -6,6 +6,7 @@ import (
 	"fmt"
 	"go/token"
 	"go/types"
+	"strings"
 
 	"golang.org/x/tools/go/ssa"
 )
@@ -641,6 +642,41 @@ func (c *Ctx) isExecuteMethod(f *ssa.Function) bool {
 	return ok && types.Implements(f.Signature.Recv().Type(), it)
 }
 
+// registrationFns: the methods of the type registry through which a user type
+// is entered under a name -- exported methods of GoStructRegistryType that take
+// a *RegisteredType and reach the registry's register method -- with the index
+// of that parameter.
+func (c *Ctx) registrationFns() map[*ssa.Function]int {
+	out := map[*ssa.Function]int{}
+	register := c.fn("GoStructRegistryType.register")
+	regT := c.named("GoStructRegistryType")
+	rtT := c.named("RegisteredType")
+	if register == nil || regT == nil || rtT == nil {
+		return out
+	}
+	for _, f := range c.zygoFuncs() {
+		if f.Parent() != nil || !isMethodOf(f, regT) || f == register || f.Object() == nil || !f.Object().Exported() {
+			continue
+		}
+		idx := -1
+		for i, p := range f.Params {
+			if pt, ok := p.Type().(*types.Pointer); ok && i > 0 && types.Identical(pt.Elem(), rtT) {
+				idx = i
+				break
+			}
+		}
+		if idx < 0 || !staticReach(f)[register] {
+			continue
+		}
+		// derived-type constructors (GetOrCreate...) look a name up first and take the element type, not the type to enter
+		if strings.HasPrefix(f.Name(), "GetOrCreate") {
+			continue
+		}
+		out[f] = idx
+	}
+	return out
+}
+
 // checkDeclarationUndone: C05-UNDO. "Every definition completed before the
 // failure is intact." A builtin that enters a type into the package-level type
 // registry and can still fail afterwards (it evaluates the field expressions
@@ -650,9 +686,10 @@ func (c *Ctx) isExecuteMethod(f *ssa.Function) bool {
 // previous type again or deletes the name). The rule looks at every function
 // that registers a user type and can return an error after doing so.
 func (c *Ctx) checkDeclarationUndone(rule string) {
-	reg := c.mustFn(rule, "GoStructRegistryType.RegisterUserdef")
+	regs := c.registrationFns()
 	regVar := c.SZygo.Var("GoStructRegistry")
-	if reg == nil || regVar == nil {
+	if len(regs) == 0 || regVar == nil {
+		c.undecided(rule, "package", "registration interface", token.NoPos, "no method of the type registry that enters a user type was found")
 		return
 	}
 	n := 0
@@ -664,7 +701,10 @@ func (c *Ctx) checkDeclarationUndone(rule string) {
 		if idx < 0 {
 			continue
 		}
-		sites := callsOf(f, reg)
+		var sites []ssa.CallInstruction
+		for reg := range regs {
+			sites = append(sites, callsOf(f, reg)...)
+		}
 		if len(sites) == 0 {
 			continue
 		}
@@ -701,7 +741,7 @@ func (c *Ctx) checkDeclarationUndone(rule string) {
 			eachInstr(cl, func(b2 *ssa.BasicBlock, j int, x ssa.Instruction) {
 				switch y := x.(type) {
 				case *ssa.Call:
-					if y.Call.StaticCallee() == reg {
+					if _, isReg := regs[y.Call.StaticCallee()]; isReg && y.Call.StaticCallee() != nil {
 						undone = true
 					}
 					if bi, ok := y.Call.Value.(*ssa.Builtin); ok && bi.Name() == "delete" && len(y.Call.Args) > 0 && derivesFromGlobal(y.Call.Args[0], regVar, 0) {
